@@ -7,6 +7,8 @@
 -/
 import GojaModel.C18.LemmasH
 import GojaModel.C18.Values
+import GojaModel.C18.ConcreteV
+import GojaModel.C18.SymIterL
 
 namespace GojaModel.C18
 section
@@ -166,6 +168,79 @@ theorem value_level_refines (mh : List UInt8 → Nat) (ph : Nat → Nat) (V : Ty
     exact Bool.eq_iff_iff.2 (by simpa using (cls_eq_iff_svz' ha hb).symm)
   · intro ops
     exact history_refines id _ (fun _ => rfl) ops
+
+/-! ### Second level: the representation-keyed structure itself refines the class-keyed model and the spec -/
+
+/-- Generic functional simulation: a structure that stores key representations, hashes them with `hash` and compares
+them with an arbitrary dynamic test `eqv` (map.go:31 `entry.key.SameAs(key)`) — sharing all code after `lookup` with the
+class-keyed model — is mapped by `mapKeys f` onto the class-keyed model, step by step, for every history whose keys
+satisfy `W`, provided `Bridge` holds (probes normalise to storable keys, `eqv` on a stored key and a normalised probe
+is equality of classes, the hash factors through classes). -/
+theorem concrete_simulates_class_model {K K' V : Type} [DecidableEq K'] {eqv : K → K → Bool} {norm : K → K}
+    {hash : K → Nat} {f : K → K'} {hash' : K' → Nat} {S W : K → Prop}
+    (B : Bridge eqv norm hash f hash' S W) (ops : List (Op K V)) (hok : ∀ o, o ∈ ops → o.keyOk W) :
+    (Sys.runE eqv norm hash ({} : Sys K V) ops).2.map (Res.mapKey f) =
+      (Sys.run id hash' ({} : Sys K' V) (ops.map (Op.mapKey (fun k => f (norm k))))).2 :=
+  runE_sim B ops {} (fun i k h => by simp at h) hok
+
+/-- The instance for goja's values: the real structure — entries holding `valueInt`/`valueFloat`/ASCII/UTF-16/imported
+strings/BigInts/objects as they arrived (after the −0 normalisation), bucket chosen by the per-type `hash` with ANY
+maphash function, chain walked with the per-type `SameAs` — produces, for every history over well-formed keys and any
+number of live iterators, exactly the results of the [[MapData]] spec, keys being read up to SameValueZero class. -/
+theorem concrete_refines_spec (mh : List UInt8 → Nat) (ph : Nat → Nat) {V : Type} (ops : List (Op Key V))
+    (hok : ∀ o, o ∈ ops → o.keyOk Key.WF) :
+    (Sys.runE sameAsK normKeyK (hashK mh ph) ({} : Sys Key V) ops).2.map (Res.mapKey cls) =
+      (SpecSys.run id ({} : SpecSys KeyClass V) (ops.map (Op.mapKey cls))).2 := by
+  obtain ⟨hashC, hh, _, hr⟩ := value_level_refines mh ph V
+  have B := keyBridge mh ph hashC hh
+  rw [runE_sim B ops {} (fun i k h => by simp at h) hok]
+  have : (fun k => cls (normKeyK k)) = cls := funext cls_normKeyK
+  rw [this]
+  exact hr _
+
+/-! ### Full iteration, and the symbol-key snapshot iterator of ordinary objects (object.go:1270-1303, fix a9d0bdc) -/
+
+section
+variable {K V : Type} [DecidableEq K] (norm : K → K) (hash : K → Nat)
+
+/-- A fresh `orderedMapIter` driven to the end without interleaved mutation (`symbols(true)`, Map/Set `export`,
+`Array.from`, `getOwnPropertySymbols`) yields exactly the live keys in insertion order — the spec's
+`[[OwnPropertyKeys]]` / entry list — and no key twice. -/
+theorem full_iteration_lists_live_keys {m : OMap K V} (I : Inv norm hash m) :
+    symbolsAll m = Spec.ownKeys (abs m) ∧ (symbolsAll m).Nodup := symbolsAll_spec norm hash I
+
+/-- Go-side `Export()` of a Map/Set (and `ExportTo` a slice/array): `size` slots, at most `size` calls of `next()`
+(builtin_map.go:53-68, builtin_set.go:52-90).  Because `size` is exactly the number of live entries, this visits every
+entry present, once, in insertion order. -/
+theorem export_lists_all_entries {m : OMap K V} (I : Inv norm hash m) :
+    drain m m.size newIter = Spec.ownKeys (abs m) := export_spec norm hash I
+
+/-- The snapshot iterator refines ECMA-262 CopyDataProperties / Object.assign on symbol keys: creation lists the spec's
+`[[OwnPropertyKeys]]`, every `next()` equals the spec's "take the next listed key whose `[[GetOwnProperty]]` is defined". -/
+theorem symbol_snapshot_refines {m : OMap K V} (I : Inv norm hash m) (hnorm : ∀ k, norm (norm k) = norm k)
+    (ks : List K) :
+    (symIterNew m).keys = Spec.ownKeys (abs m) ∧
+    (symIterNext norm hash m ks).1.keys = (Spec.assignNext norm (abs m) ks).1 ∧
+    (symIterNext norm hash m ks).2 = (Spec.assignNext norm (abs m) ks).2 :=
+  ⟨(symbolsAll_spec norm hash I).1, symIterNext_refines norm hash I hnorm ks⟩
+
+/-- Deleted keys are skipped, present ones are visited with their CURRENT value: one `next()` against an arbitrary
+current table pops a prefix of listed keys that are all absent now and stops at the first one that is present. -/
+theorem symbol_snapshot_step (m : OMap K V) (ks : List K) : ∃ skipped,
+    (∀ s, s ∈ skipped → get norm hash m s = none) ∧
+    (match (symIterNext norm hash m ks).2 with
+     | some (k, v) => ks = skipped ++ k :: (symIterNext norm hash m ks).1.keys ∧ get norm hash m k = some v
+     | none => ks = skipped ∧ (symIterNext norm hash m ks).1.keys = []) :=
+  symIterNext_spec norm hash m ks
+
+/-- Keys are listed once and keys added later are never visited: whatever states `ms` the successive `next()` calls
+see (arbitrary mutation in between), the visited keys form a sub-sequence of the snapshot taken at creation, which has
+no duplicates — so each listed key is visited at most once, in listing order, and nothing else ever is. -/
+theorem symbol_snapshot_visits_sublist {m0 : OMap K V} (I : Inv norm hash m0) (ms : List (OMap K V)) :
+    (symYields norm hash (symIterNew m0).keys ms).Sublist (symIterNew m0).keys ∧ (symIterNew m0).keys.Nodup :=
+  ⟨symYields_sublist norm hash ms _, (symbolsAll_spec norm hash I).2⟩
+
+end
 
 /-! Tests on literals (not proofs of the property): hypotheses are satisfiable by a non-trivial state. -/
 example : Inv (K := Nat) (V := Nat) id (fun k => k % 2)
